@@ -65,6 +65,7 @@ def run_tlc(
             "java",
             "-XX:+UseParallelGC",
             f"-Xmx{heap}",
+            "-Xss512m",
             f"-DTLA-Library={libs}",
             "-cp",
             f"{JAR}:{DEPS}",
